@@ -51,9 +51,9 @@ class MarkerMaker(object):
         self.stop = stop
         self.used = set()
 
-    def new(self):
+    def new(self, alphabet=UPPER):
         while True:
-            m = ''.join(self.rng.choice(UPPER) for _ in range(8))
+            m = ''.join(self.rng.choice(alphabet) for _ in range(8))
             gs = grams(m)
             if gs & self.stop or gs & self.used:
                 continue
@@ -75,8 +75,10 @@ def make_program(rng, stop, handler=None, synerr=False, nblocks=None):
     markers = []
     data_markers = []
 
-    def mk():
-        m = mm.new()
+    # DATA markers and text markers use disjoint halves of the alphabet: DATA items printed next to each other
+    # (READ A$,B$:PRINT A$;B$) form new 4-grams across the seam, which must never look like a text marker
+    def mk(alphabet=UPPER[13:]):
+        m = mm.new(alphabet)
         markers.append(m)
         return m
 
@@ -147,7 +149,7 @@ def make_program(rng, stop, handler=None, synerr=False, nblocks=None):
     for _ in range(rng.randint(1, 3)):
         items = []
         for _j in range(rng.randint(1, 3)):
-            dm = mk()
+            dm = mk(UPPER[:13])
             data_markers.append(dm)
             items.append(('"%s"' % dm) if rng.random() < 0.5 else dm)
         add('DATA %s' % ','.join(items))
